@@ -158,7 +158,7 @@ SlotMatches(exp, obs) ==
   ELSE IF exp.k = "uterm" THEN (IF Has(exp, "inv") /\ exp.inv THEN obs.k = "num" ELSE obs.k = "unit" /\ obs.u = exp.u)   \* the driver evaluates the term
   ELSE IF exp.k = "notunits" THEN obs.k \in SlotKinds /\ (obs.k = "unit" => obs.u \notin exp.us)
   ELSE IF exp.k = "baseline" THEN Has(obs, "same_as_base") /\ obs.same_as_base      \* the driver compares with the rule-free run
-  ELSE IF exp.k = "famq" THEN obs.k = "unit" /\ Has(obs, "q") /\ obs.q = exp.q /\ obs.group = exp.fam /\ obs.index = exp.idx
+  ELSE IF exp.k = "famq" THEN obs.k = "unit" /\ QAgrees(obs, exp.q) /\ obs.group = exp.fam /\ obs.index = exp.idx
   ELSE IF exp.k = "ts" THEN obs.k = "num" /\ Has(obs, "ts") /\ obs.ts = <<exp.d, exp.s>> /\ (Has(obs, "pr") => obs.pr = <<exp.d, exp.s>>)
   ELSE Matches(exp, obs) /\ PrintMatches(exp, obs)
 SlotMatchesCtx(ctx, exp, obs) == SlotMatches(exp, obs) /\ PrintMatchesCtx(ctx, exp, obs)
